@@ -248,7 +248,23 @@ Step ==
 
 Done == phase = "body" /\ todo = <<>>
 
-Program == [imp |-> imp, items |-> items, out |-> out]
+\* Rename (C07): the declaration ids occurring in the program and, for each, the tokens a rename must
+\* rewrite - the declaring token and every occurrence bound to it that is spelled with the declaration's own
+\* name (an occurrence through an import alias keeps its spelling).  Library declarations are declared in m2.
+DeclName(d) == IF d = LibValues.a THEN "a" ELSE IF d = LibValues.c THEN "c" ELSE IF d = LibValues.A THEN "A"
+               ELSE IF d = LibValues.C THEN "C" ELSE IF d = LibValues.k THEN "k"
+               ELSE IF d > ItemBase THEN items[d - ItemBase].n ELSE out[d].t
+DeclIds == {out[i].tg : i \in {j \in 1..Len(out) : out[j].r \in {"def", "spreaddef", "ref", "qref", "impname"} /\ out[j].tg # 0}}
+RenameSet(d) == {i \in 1..Len(out) : /\ out[i].r \in {"def", "spreaddef", "ref", "qref", "impname", "altdef"}
+                                      /\ out[i].tg = d /\ out[i].t = DeclName(d)}
+Renames == {[d |-> d, name |-> DeclName(d), toks |-> RenameSet(d)] : d \in DeclIds}
+
+\* with a fresh name the binding structure is untouched: every rewritten token carries the same target,
+\* no other token is spelled with the old name and bound to d (theorem of the edit-set characterisation)
+RenameComplete == Done => \A d \in DeclIds : \A i \in 1..Len(out) :
+                     (out[i].tg = d /\ out[i].t = DeclName(d) /\ out[i].r # "impalias" /\ out[i].r # "modref") => i \in RenameSet(d)
+
+Program == [imp |-> imp, items |-> items, out |-> out, ren |-> Renames]
 
 \* simulation mode: print the finished program and start over
 Finish == /\ Sim /\ Done
